@@ -77,6 +77,9 @@ type Step struct {
 	// Prepared: db.Prepare + stmt.Exec/Query instead of db.Exec/Query
 	Prepared bool `json:"prepared,omitempty"`
 	NoCtx    bool `json:"no_ctx,omitempty"` // use context.Background() even inside a global transaction
+	// tx_begin options (sql.TxOptions): read-only, isolation level (sql.IsolationLevel number, 0 = default)
+	ReadOnly  bool `json:"read_only,omitempty"`
+	Isolation int  `json:"isolation,omitempty"`
 	// Cancelable: the step runs under its own cancellable child context, which a db_fault with action
 	// "cancel" cancels just before refusing the matching statement
 	Cancelable bool `json:"cancelable,omitempty"`
@@ -791,7 +794,11 @@ func (r *runner) simple(ctx context.Context, s Step, path string, res *StepResul
 			return err
 		}
 		c.Raw(func(dc interface{}) error { res.ConnID = connID(dc); return nil })
-		t, err := c.BeginTx(ctx, nil)
+		var topts *sql.TxOptions
+		if s.ReadOnly || s.Isolation != 0 {
+			topts = &sql.TxOptions{ReadOnly: s.ReadOnly, Isolation: sql.IsolationLevel(s.Isolation)}
+		}
+		t, err := c.BeginTx(ctx, topts)
 		if err != nil {
 			return err
 		}
